@@ -1004,10 +1004,18 @@ class Variable(CanBehaveLikeAVariable[T]):
                 self._is_false_ = is_false
             yield OperationResult(sources, is_false, self)
         elif self._domain_:
+            # where the variable itself is used as a condition, the truth value of every value of its domain matters.
+            is_a_condition = (
+                isinstance(self._parent_, LogicalOperator)
+                or self is self._conditions_root_
+            )
             for v in self._domain_:
-                yield OperationResult(
-                    {**sources, self._id_: HashedValue(v)}, False, self
-                )
+                value = HashedValue(v)
+                is_false = False
+                if is_a_condition:
+                    is_false = not bool(value)
+                    self._is_false_ = is_false
+                yield OperationResult({**sources, self._id_: value}, is_false, self)
         elif self._should_be_instantiated_:
             yield from self._instantiate_using_child_vars_and_yield_results_(sources)
         else:
@@ -1156,33 +1164,50 @@ class DomainMapping(CanBehaveLikeAVariable[T], ABC):
 
         self._eval_parent_ = parent
 
+        # the role of this use of the expression; a nested evaluation of the same expression (it can be used more than
+        # once) changes the evaluation parent while this evaluation is suspended.
+        is_a_condition = (
+            isinstance(self._parent_, LogicalOperator)
+            or self is self._conditions_root_
+        )
+
         if self._id_ in sources:
-            yield OperationResult(sources, self._is_false_, self)
+            # an expression that is used more than once is already bound, its truth value matters if it is used as a
+            # condition here.
+            is_false = False
+            if is_a_condition:
+                is_false = not bool(sources[self._id_])
+                self._is_false_ = is_false
+            yield OperationResult(sources, is_false, self)
             return
 
         yield from (
             self._build_operation_result_and_update_truth_value_(
-                child_result, mapped_value
+                child_result, mapped_value, is_a_condition
             )
             for child_result in self._child_._evaluate__(sources, parent=self)
             for mapped_value in self._apply_mapping_(child_result[self._child_._id_])
         )
 
     def _build_operation_result_and_update_truth_value_(
-        self, child_result: OperationResult, current_value: Any
+        self, child_result: OperationResult, current_value: Any, is_a_condition: bool
     ) -> OperationResult:
         """
         Set the current truth value of the operation result, and build the operation result to be yielded.
 
         :param child_result: The current result from the child operation.
         :param current_value: The current value of this operation that is derived from the child result.
+        :param is_a_condition: Whether the value is used as a condition (its truth value matters).
         :return: The operation result.
         """
-        if isinstance(self._parent_, LogicalOperator) or self is self._conditions_root_:
-            self._is_false_ = not bool(current_value)
+        # as an operand (e.g., of a comparison) a falsy value is a value like any other.
+        is_false = False
+        if is_a_condition:
+            is_false = not bool(current_value)
+            self._is_false_ = is_false
         return OperationResult(
             {**child_result.bindings, self._id_: current_value},
-            self._is_false_,
+            is_false,
             self,
         )
 
